@@ -27,6 +27,25 @@ def _leaves(t):
     return [t]
 
 
+LENGTH_GETTERS = ("cbor_bytestring_length", "cbor_string_length", "cbor_array_size", "cbor_map_size", "cbor_bytestring_chunk_count",
+                  "cbor_string_chunk_count")
+
+
+def _atoms(t):
+    """the run-time quantities a comparison is made of (through arithmetic and casts)"""
+    if not isinstance(t, tuple):
+        return []
+    if t[0] in ("icmp",):
+        return _atoms(t[2]) + _atoms(t[3])
+    if t[0] == "op":
+        return _atoms(t[3]) + _atoms(t[4])
+    if t[0] == "cast":
+        return _atoms(t[3])
+    if t[0] == "not":
+        return _atoms(t[1])
+    return [t]
+
+
 def _mentions(t, x):
     if t == x:
         return True
@@ -107,6 +126,30 @@ def zero_only_on_short_buffer(chk, rule, prog, eff, CS, encoders):
                     why = "a nested failure-signalling call returned 0"
                 elif any(t[0] == "icmp" and _mentions(t, SIZE) for t, _truth, _ in pa.facts):
                     why = "a comparison against buffer_size was decided"
+                    # ... with what this call writes: constants, what nested encoders / serializers returned, and the payload length
+                    # read from the item now (accessor or field).  A quantity kept elsewhere (a cached total in a side structure) is
+                    # not what will be written if it has gone stale - a refusal decided by it alone is not "too small"
+                    for t, _truth, _ in pa.facts:
+                        if not (t[0] == "icmp" and _mentions(t, SIZE)):
+                            continue
+                        for x in _atoms(t):
+                            if x == SIZE or P.is_const(x):
+                                continue
+                            if isinstance(x, tuple) and x[0] == "call" and (x[1] in failsig or x[1] in LENGTH_GETTERS):
+                                continue
+                            if isinstance(x, tuple) and x[0] == "ld" and item is not None and x[1] == item:
+                                continue        # a field of the item itself
+                            if isinstance(x, tuple) and x[0] == "arg":
+                                continue
+                            why = None
+                            bad_atom = x
+                    if why is None:
+                        chk.ob(rule, "%s path %d: returns 0 only because the buffer is too small" % (f.name, k), False, where, fn=f.name,
+                               key="%s:zero:%d" % (f.name, k), nontrivial=True,
+                               detail="refuses by comparing buffer_size with %s - neither a result of a nested encoder nor the payload length read "
+                                      "from the item: a remembered total that no longer matches the item refuses buffers that are large enough"
+                                      % DR.fmt_term(bad_atom), path=pa.block_lines())
+                        continue
                 elif item is not None and not CS.summary(f, pa, item)[0]:
                     why = "outside the item domain"
                 chk.ob(rule, "%s path %d: returns 0 only because the buffer is too small" % (f.name, k), why is not None, where, fn=f.name,
